@@ -8,8 +8,8 @@ import (
 	otypes "github.com/ontio/ontology/core/types"
 	"github.com/polynetwork/poly/common"
 	vconfig "github.com/polynetwork/poly/consensus/vbft/config"
-	"github.com/polynetwork/poly/native/service/header_sync/ont"
 	hscommon "github.com/polynetwork/poly/native/service/header_sync/common"
+	"github.com/polynetwork/poly/native/service/header_sync/ont"
 	"github.com/polynetwork/poly/native/service/utils"
 )
 
